@@ -139,7 +139,7 @@ func classifyDeath(run *Run, res *Result) {
 		strings.Contains(msg, "negative WaitGroup counter") || strings.Contains(msg, "WaitGroup is reused")
 	firstPkg := ""
 	for _, f := range frames {
-		if strings.HasPrefix(f, "panic") || strings.HasPrefix(f, "runtime.") || strings.HasPrefix(f, "sync.") || strings.HasPrefix(f, "internal/") {
+		if strings.HasPrefix(f, "panic") || strings.HasPrefix(f, "runtime.") || strings.HasPrefix(f, "sync.") || strings.HasPrefix(f, "internal/") || strings.HasPrefix(f, "testing.") {
 			continue
 		}
 		firstPkg = f
